@@ -145,7 +145,7 @@ theorem C08_prepare_keeps_headers (status : Nat) (size : BodySize) (hs : List He
   · simp [hs']
   · have hs'' : special h.1 = false := by simpa using hs'
     simp only [special, Bool.or_eq_false_iff] at hs''
-    simp [special, keepHeader, hs''.1.1, hs''.1.2, hs''.2]
+    simp [special, keepHeader, hs''.1.2, hs''.2]
 
 /-- **C08_prepare_date**: the response carries the handler's `date` header(s) if it set any,
 otherwise exactly one, from the date service. -/
@@ -181,9 +181,9 @@ theorem C08_prepare_date (status : Nat) (size : BodySize) (hs : List Header) (da
           simp [hd, this]
         · simp [hd])
       by_cases hd : h.1 = "date"
-      · simp [valuesOf, List.filter_cons, hd]
+      · simp [valuesOf, hd]
       · simp only [valuesOf] at ih'
-        simp [valuesOf, List.filter_cons, hd, ih']
+        simp [valuesOf, hd, ih']
   simp only [prepareResponse, happ, h1, hk, List.nil_append, hany]
   cases hv : valuesOf "date" hs with
   | nil => simp [valuesOf]
@@ -389,6 +389,42 @@ theorem C08_invariant (items : List Item) (sched : List CapAns) :
     (s.fin = some .done → s.cur = [] ∧ s.items = []) :=
   let h := runSteps_inv items sched
   ⟨h.bytes, h.waiting, h.eos, h.done⟩
+
+/-! ## Several streams on one connection -/
+
+/-- **C08_streams_independent**: under every interleaving of capacity answers, resets and
+errors addressed to any streams, the state of stream `k` is what it would be had it run alone
+on the answers addressed to it. -/
+theorem C08_streams_independent (bodies : Nat → List Item) (evs : List (Nat × CapAns)) (k : Nat) :
+    runConn bodies evs k = runSteps (bodies k) (project k evs) :=
+  runConn_project bodies evs k
+
+/-- **C08_other_streams_irrelevant**: two event histories that agree on stream `k` (and differ
+arbitrarily elsewhere: another stream reset, starved, failing, slow) leave stream `k` identical. -/
+theorem C08_other_streams_irrelevant (bodies : Nat → List Item) (e₁ e₂ : List (Nat × CapAns)) (k : Nat)
+    (h : project k e₁ = project k e₂) : runConn bodies e₁ k = runConn bodies e₂ k := by
+  rw [runConn_project, runConn_project, h]
+
+/-- **C08_conn_stream_exact**: on a connection with arbitrary traffic on other streams, a stream
+whose own answers satisfy the oracle contract delivers exactly its body and END_STREAM. -/
+theorem C08_conn_stream_exact (bodies : Nat → List Item) (evs : List (Nat × CapAns)) (k : Nat)
+    (hok : bodyFails (bodies k) = false)
+    (hc : OracleContract (project k evs) (sendBody (bodies k) (project k evs)).polls)
+    (hlen : (bodyBytes (bodies k)).length ≤ (project k evs).length) :
+    wireBytes (runConn bodies evs k).frames = bodyBytes (bodies k) ∧
+    (runConn bodies evs k).end_ = .done := by
+  obtain ⟨h1, h2, _⟩ := C08_body_exact (bodies k) (project k evs) hok hc hlen
+  obtain ⟨m1, m2⟩ := runSteps_eq_sendBody (bodies k) (project k evs)
+  rw [runConn_project, m1, m2]
+  exact ⟨h2, h1⟩
+
+/-- a non-trivial instance: stream 1 is reset, stream 2 completes -/
+example :
+    let bodies : Nat → List Item := fun k => if k = 1 then [.chunk [1, 2, 3]] else [.chunk [7, 8]]
+    let evs : List (Nat × CapAns) := [(1, .cap 1), (2, .cap 1), (1, .closed), (2, .cap 5)]
+    (runConn bodies evs 1).end_ = .closed ∧ (runConn bodies evs 2).end_ = .done ∧
+    wireBytes (runConn bodies evs 2).frames = [7, 8] := by
+  decide
 
 /-! ## Refinement to the client's view -/
 
